@@ -54,11 +54,12 @@ Theorem C10_persistence : forall O o s exc c now, rt_b64 O -> rt_ser O -> mac_le
 Proof. exact persistence. Qed.
 Print Assumptions C10_persistence.
 
-(* kept exactly at the timeout, emptied one second later, never raising, never "new" *)
+(* clock in ticks of 1/4 s: kept exactly at the timeout (measured from the stamp in the cookie),
+   emptied one tick later, never raising, never "new" *)
 Theorem C10_timeout_boundary : forall O o s exc c t, rt_b64 O -> rt_ser O -> mac_len O ->
   finish O o s exc = FCookie c -> timeout o = Some t ->
-  (exists s0, init O o (Some c) (tval (accessed s) + t) = IOk s0 /\ st s0 = st s /\ isnew s0 = false)
-  /\ (exists s0, init O o (Some c) (tval (accessed s) + t + 1) = IOk s0 /\ st s0 = [] /\ isnew s0 = false
+  (exists s0, init O o (Some c) (tval (accessed s) + t * tick) = IOk s0 /\ st s0 = st s /\ isnew s0 = false)
+  /\ (exists s0, init O o (Some c) (tval (accessed s) + t * tick + 1) = IOk s0 /\ st s0 = [] /\ isnew s0 = false
                  /\ tval (created s0) = tval (created s)).
 Proof. exact timeout_boundary. Qed.
 Print Assumptions C10_timeout_boundary.
@@ -70,7 +71,7 @@ Print Assumptions C10_cookie_iff_dirty.
 
 Theorem C10_reissue_boundary : forall o p t s r,
   op_cls p (st s) = CAcc -> reissue o = Some r ->
-  dirty (fst (step o p t s)) = dirty s || Z.gtb (t - tval (renewed s)) r.
+  dirty (fst (step o p t s)) = dirty s || Z.gtb (int_time t * tick - tval (renewed s)) (r * tick).
 Proof. exact reissue_boundary. Qed.
 Print Assumptions C10_reissue_boundary.
 
